@@ -4,6 +4,12 @@ import json
 ALL = [f'C{i:02d}' for i in range(1, 21)]
 
 CHECKS = {
+ 'C04': dict(
+  category='model_checking',
+  text='spec/KfacRef.tla fixes for every history which micro-batches enter which EMA update with which decay (Ema/Mean terms, identity start, per-factor accumulation, eval frame); TLC enumerates all maximal paths to depth 5 (6) for 13 (17) configuration families (linear, conv with rectangular kernel/stride/padding, N-d linear inputs, no-bias, decay constant/callable/exp_decay_factor_averaging, accumulation 1..3, hook/step updating, loss scales, factor dtypes) and each behaviour is replayed into the real code -- W=1 and, under the iteration discipline, W in {2,4} on simdist with all strategies (Mean over all ranks) -- comparing the factors of every layer on every rank after every action with a float64 recomputation from driver-captured tensors, plus symmetry, PSD and dtype.',
+  ref='DESIGN.md 4.4, 5 (C04)',
+  note='Real-valued inputs are sampled (seeded); factor tolerance 2e-5 relative. CUDA GradScaler objects are out of reach (callable scaler used).',
+  technique='TLA+ spec (KfacRef.tla) + TLC path enumeration with lock-step replay; float64 term interpretation'),
  'C05': dict(
   category='model_checking',
   text='spec/KfacRef.tla (sequential K-FAC reference machine over symbolic terms) with the interval / schedule clauses as action properties, model-checked by TLC exhaustively to a depth for ~18 configuration families (interval pairs incl. non-multiples and callables, hook/no-hook, accumulation, callable and scheduler-driven hyper-parameters, reset / forward-only / checkpoint interleavings); every behaviour TLC enumerates (all maximal paths for small alphabets, -simulate for the 9-action alphabet) is replayed in lock step into the real KFACPreconditioner and steps, the six hyper-parameters, factors, refresh events and gradients are compared after every action (terms interpreted in float64 by solving the defining system).',
